@@ -1,6 +1,7 @@
 package harness
 
 import (
+	"bytes"
 	"errors"
 	"fmt"
 	"math"
@@ -37,6 +38,8 @@ type c19Case struct {
 	Kind     string  `json:"kind"`
 	Opt      kvh.Opt `json:"options"`
 	Cmds     []rcmd  `json:"cmds"`
+	// Packed: every command's key, field and value are sub-slices of one request buffer
+	Packed bool `json:"packed,omitempty"`
 }
 
 // abstract state of one user key
@@ -73,12 +76,13 @@ func (k *rkey) ambiguous() bool {
 }
 
 type redisRunner struct {
-	dir   string
-	base  string
-	dts   *datatype.DataTypeService
-	keys  map[string]*rkey
-	cmds  []rcmd
-	types map[string]bool
+	dir    string
+	base   string
+	dts    *datatype.DataTypeService
+	packed bool
+	keys   map[string]*rkey
+	cmds   []rcmd
+	types  map[string]bool
 	// features
 	delRecreate, restartAfterAgg, restarts, aggUpdates, wrongType, excluded, crossType int
 	deleted                                                                            map[string]bool
@@ -185,6 +189,30 @@ func (r *redisRunner) step(c rcmd) (fail *kvh.Fail) {
 		}
 		// everything must be unchanged: probe every key with a same-type read
 		return r.probeAll()
+	}
+	if r.packed {
+		// the arguments arrive as a protocol parser hands them out: sub-slices of one request buffer, back to back,
+		// each with the rest of the buffer as spare capacity; the buffer must come back untouched
+		n := len(c.Key) + len(c.F) + len(c.V)
+		buf := make([]byte, n, n+96)
+		a, b := len(c.Key), len(c.Key)+len(c.F)
+		copy(buf, c.Key)
+		copy(buf[a:], c.F)
+		copy(buf[b:], c.V)
+		hadF, hadV := c.F != nil, c.V != nil
+		c.Key = buf[:a]
+		if hadF {
+			c.F = buf[a:b]
+		}
+		if hadV {
+			c.V = buf[b:n]
+		}
+		snap := append([]byte(nil), buf[:cap(buf)]...)
+		defer func() {
+			if fail == nil && !bytes.Equal(buf[:cap(buf)], snap) {
+				fail = &kvh.Fail{Sig: "caller-arguments-modified", Msg: fmt.Sprintf("cmd %d %s: the request buffer holding key, field and value (sub-slices of one array) was modified by the call: %q -> %q", len(r.cmds)-1, c.C, snap[:n], buf[:n])}
+			}
+		}()
 	}
 	k := r.key(c.Key)
 	t := typeOf(c.C)
@@ -538,6 +566,11 @@ func c19Run(t *rapid.T, st *kvh.Stats) {
 		report(t, st, c, f)
 	}
 	defer r.cleanup()
+	c.Packed = kvh.Pct(t, 50, "packed")
+	r.packed = c.Packed
+	if r.packed {
+		st.Label("arguments-are-sub-slices-of-one-request-buffer")
+	}
 	kvh.SetInFlight(&kvh.InFlight{Property: "C19", Case: func() any { c.Cmds = r.cmds; return c }})
 	defer kvh.SetInFlight(nil)
 	t.Repeat(map[string]func(*rapid.T){
@@ -623,6 +656,7 @@ func init() {
 			return f
 		}
 		defer r.cleanup()
+		r.packed = c.Packed
 		for _, cm := range c.Cmds {
 			if !r.admissible(&cm) {
 				continue
